@@ -349,6 +349,15 @@ def _inst_from_str(inst_str: str) -> datetime:
         raise SyntaxError(f"Unrecognized date/time syntax: {inst_str}") from e
 
 
+def _queue_from_form(form: LispReaderForm) -> lqueue.PersistentQueue:
+    try:
+        return lqueue.queue(form)
+    except TypeError as e:
+        raise SyntaxError(
+            f"Queue literal expects a collection of its elements, got: {type(form)}"
+        ) from e
+
+
 def _uuid_from_str(uuid_str: str) -> uuid.UUID:
     try:
         return langutil.uuid_from_str(uuid_str)
@@ -365,7 +374,7 @@ class ReaderContext:
         {
             sym.symbol("inst"): _inst_from_str,
             sym.symbol("py"): _py_from_lisp,
-            sym.symbol("queue"): lqueue.queue,
+            sym.symbol("queue"): _queue_from_form,
             sym.symbol("uuid"): _uuid_from_str,
         }
     )
